@@ -106,26 +106,27 @@ type hViolation struct {
 }
 
 type session struct {
-	sc         *hScenario
-	cfg        *config.Dcp
-	cl         *fakeClient
-	meta       *fakeMeta
-	cons       *fakeConsumer
-	disc       *fakeDiscovery
-	discI      stream.VBucketDiscovery     // optional: a real discovery object instead of the fake (C16)
-	metaI      metadata.Metadata           // optional: a real backend (file) instead of the fake store
-	saved      map[uint16]ckTuple          // file backend model: what the last save wrote (whole state)
-	ever       map[uint16]map[ckTuple]bool // every event / start position of a vBucket, across sessions
-	failedOver map[uint16]bool
-	nFailover  int
-	sessions   int
-	fpath      string
-	hand       *fakeHandler
-	st         stream.Stream
-	stopCh     chan struct{}
-	srv        map[uint16]*srvVb
-	vbs        map[uint16]*mvb
-	step       int
+	sc             *hScenario
+	cfg            *config.Dcp
+	cl             *fakeClient
+	meta           *fakeMeta
+	cons           *fakeConsumer
+	disc           *fakeDiscovery
+	discI          stream.VBucketDiscovery     // optional: a real discovery object instead of the fake (C16)
+	metaI          metadata.Metadata           // optional: a real backend (file) instead of the fake store
+	saved          map[uint16]ckTuple          // file backend model: what the last save wrote (whole state)
+	prevLo, prevHi int                         // the range in effect before the rebalance in progress
+	ever           map[uint16]map[ckTuple]bool // every event / start position of a vBucket, across sessions
+	failedOver     map[uint16]bool
+	nFailover      int
+	sessions       int
+	fpath          string
+	hand           *fakeHandler
+	st             stream.Stream
+	stopCh         chan struct{}
+	srv            map[uint16]*srvVb
+	vbs            map[uint16]*mvb
+	step           int
 	// in-flight save
 	saveDone       chan struct{}
 	inflight       *saveCall
@@ -515,6 +516,7 @@ func (s *session) rebalance(op hOp) {
 	if len(s.old) > 64 {
 		s.old = s.old[len(s.old)-64:]
 	}
+	s.prevLo, s.prevHi = s.lo, s.hi
 	s.lo, s.hi = lo, lo+size-1
 	if s.onRebalance != nil {
 		s.lo, s.hi = s.onRebalance(op)
@@ -639,6 +641,13 @@ func (s *session) ackOld(op hOp) {
 	o := s.old[((op.N%len(s.old))+len(s.old))%len(s.old)]
 	m := s.vbs[o.vb]
 	tracksBefore := len(s.cons.trackLog())
+	var posBefore uint64
+	hadBefore := false
+	if offs0, _, _ := s.st.GetOffsets(); offs0 != nil {
+		if off, ok := offs0.Load(o.vb); ok {
+			posBefore, hadBefore = off.SeqNo, true
+		}
+	}
 	if _, pv := within(5*time.Second, func() { o.ev.delivered.Ctx.Ack() }); pv != nil {
 		s.fail("C04", "acknowledging an old-session event panicked: %v", pv)
 		return
@@ -649,8 +658,11 @@ func (s *session) ackOld(op hOp) {
 		if len(s.cons.trackLog()) != tracksBefore {
 			s.fail("C04", "acknowledgement for vb %d outside the assigned range %d-%d reached the offset tracker", o.vb, s.lo, s.hi)
 		}
-		if _, ok := offs.Load(o.vb); ok {
+		if off, ok := offs.Load(o.vb); ok && !hadBefore {
 			s.fail("C04", "acknowledgement for vb %d outside the assigned range %d-%d created a tracked offset", o.vb, s.lo, s.hi)
+		} else if ok && off.SeqNo != posBefore {
+			// (the whole-state file backend loads entries of vBuckets the member no longer owns: they may be there, but stay put)
+			s.fail("C04", "acknowledgement for vb %d outside the assigned range %d-%d moved its (stale) tracked position %d -> %d", o.vb, s.lo, s.hi, posBefore, off.SeqNo)
 		}
 		if _, ok := dirty.Load(o.vb); ok {
 			s.fail("C04", "acknowledgement for vb %d outside the assigned range %d-%d marked it for saving", o.vb, s.lo, s.hi)
